@@ -93,7 +93,7 @@ def gen_grid():
             for now in (t, t - 59, t - 60, t - 61, t + 1000, t - 10**6):
                 if now < 0:
                     continue
-                for verify in (False, True):
+                for verify in (False, True, None):
                     yield {'kind': 'after', 'ts': ts, 't': t, 'now': now,
                            'verify': verify}
                     yield {'kind': 'before', 'ts': ts, 't': t, 'now': now,
@@ -105,7 +105,7 @@ def gen_grid():
                 for now in (t, t - 59, t - 60, t + 1000):
                     if now < 0:
                         continue
-                    for verify in (False, True):
+                    for verify in (False, True, None):
                         yield {'kind': 'between', 'begin': begin, 'end': end,
                                't': t, 'now': now, 'verify': verify}
 
@@ -207,17 +207,20 @@ def judge(case, ctx):
     else:
         t, now = case['t'], case['now']
         in_slack = t - now < 60
+        # verify None: the argument is left out (the lock as a caller who
+        # follows the README gets it: result left on the stack)
+        va = () if case['verify'] is None else (case['verify'],)
         if k == 'after':
-            lock = tools.make_timestamp_after_lock(case['ts'], case['verify'])
+            lock = tools.make_timestamp_after_lock(case['ts'], *va)
             want = t >= case['ts'] and in_slack
             nt = abs(t - case['ts']) <= 2 or abs(t - now - 60) <= 1
         elif k == 'before':
-            lock = tools.make_timestamp_before_lock(case['ts'], case['verify'])
+            lock = tools.make_timestamp_before_lock(case['ts'], *va)
             want = t < case['ts']
             nt = abs(t - case['ts']) <= 2 or abs(t - now - 60) <= 1
         else:
             lock = tools.make_timestamp_between_lock(
-                case['begin'], case['end'], case['verify'])
+                case['begin'], case['end'], *va)
             want = case['begin'] <= t < case['end'] and in_slack
             nt = True
         st, exc = _run(bytes(lock), {'timestamp': t})
